@@ -841,6 +841,14 @@ class C08(Check):
                 d[key] = d.get(key, 0) + 1
                 if o[0] == 0:
                     d["parse_ok_chunks"] = d.get("parse_ok_chunks", 0) + len(o[1][3])
+                elif o[0] == -1:
+                    try:
+                        from aiortc.rtcsctptransport import parse_packet
+                        parse_packet(bytes(c[1]))
+                        why = "?"
+                    except Exception as exc:  # noqa
+                        why = " ".join(str(exc).split()[:3])
+                    d["reject: " + why] = d.get("reject: " + why, 0) + 1
             elif k == "burst":
                 key = "burst_straddling" if straddles(c[2]) else "burst_plain"
                 d[key] = d.get(key, 0) + 1
